@@ -88,8 +88,21 @@ func (w *W) note(op string, err error) {
 	w.Obs = append(w.Obs, op+" -> "+errCode(err))
 }
 
+// SyncPayments counts a Lightning settlement of a quote's invoice (by the user, or by a payment routed through the
+// backend) exactly once as a payment.
+func (w *W) SyncPayments() {
+	for _, q := range w.Quotes {
+		if inv := w.LN.Invoices[q.Q.PaymentHash]; inv != nil && inv.Settled && !q.LNCounted {
+			q.LNCounted = true
+			q.Payments++
+		}
+	}
+}
+
 // Exec runs one operation, applies the transition oracles and updates the model.
 func (w *W) Exec(op string) error {
+	w.SyncPayments()
+	defer w.SyncPayments()
 	f := strings.Split(op, "|")
 	arg := func(i int) string {
 		if i < len(f) {
@@ -112,8 +125,8 @@ func (w *W) Exec(op string) error {
 		inv := w.LN.Invoices[q.Q.PaymentHash]
 		if !inv.Settled {
 			w.LN.Settle(q.Q.PaymentHash)
-			q.Payments++
 		}
+		w.SyncPayments()
 		return nil
 	case "fire":
 		return w.opFire(ints(arg(1))[0])
@@ -166,7 +179,7 @@ func (w *W) opFund(amts []uint64) error {
 	qi := len(w.Quotes) - 1
 	q := w.Quotes[qi]
 	w.LN.Settle(q.Q.PaymentHash)
-	q.Payments++
+	w.SyncPayments()
 	outs := w.U.Outputs(w.M.ActiveID(), amts...)
 	w.trackOuts(outs)
 	q.LastOuts = outs
@@ -442,6 +455,11 @@ func (w *W) opSwap(op, ins, variant string) error {
 		if len(outs) > 0 {
 			outs = append(outs, outs[0])
 		}
+	case "same": // the outputs of the previous swap request again (verbatim replay)
+		outs = w.LastSwapOuts
+		if len(outs) == 0 {
+			outs = mk(act.Id, net)
+		}
 	default:
 		return fmt.Errorf("swap variant %q", variant)
 	}
@@ -449,7 +467,14 @@ func (w *W) opSwap(op, ins, variant string) error {
 		// nothing sensible to request (net amount 0): skip — an empty output list is C06's business
 		return nil
 	}
+	w.LastSwapOuts = outs
 	w.trackOuts(outs)
+	resubmitted := false
+	for _, o := range outs {
+		if w.Outs[w.outIdx[o.Msg.B_]].Signed {
+			resubmitted = true
+		}
+	}
 	outSum := bigSumMsgs(world.Msgs(outs))
 	// classification from the model
 	usedBefore, dup := false, false
@@ -481,6 +506,9 @@ func (w *W) opSwap(op, ins, variant string) error {
 		if outKS != "active" {
 			w.viol("C09", "signed-on-"+outKS+"-keyset", "Swap(%s,%s) accepted", ins, variant)
 		}
+		if resubmitted {
+			w.viol("C15", "output-signed-twice", "Swap(%s,%s): an output that already had a signature was signed again", ins, variant)
+		}
 		for _, n := range idx {
 			w.Proofs[n].St = Spent
 			w.Proofs[n].Wit = proofs[0].Witness
@@ -491,7 +519,7 @@ func (w *W) opSwap(op, ins, variant string) error {
 		}
 		w.recordSigs(op, outs, sigs)
 	} else {
-		honest := !usedBefore && !dup && !mutated && variant == "exact"
+		honest := !usedBefore && !dup && !mutated && variant == "exact" && !resubmitted
 		for _, f := range strings.Split(ins, ",") {
 			if strings.HasSuffix(f, "w") || strings.HasSuffix(f, "d") {
 				_ = f // witness / DLEQ decoration on a plain proof is ignored by the mint: still honest
